@@ -165,6 +165,8 @@ def body_for(beh: Dict[str, Any], req: Optional[Dict[str, Any]]) -> Tuple[bytes,
         msgs = [wrong]
     elif kind == "note_only":
         msgs = [note2]
+    elif kind == "server_request_only":
+        msgs = [sreq, note2]
     elif kind.startswith("flood"):
         # more messages in one answer than the read stream buffers
         n = int(kind[5:])
@@ -259,6 +261,10 @@ NOTE_BEHAVIOURS = [
     {"status": 404, "ctype": None, "body": "empty"}, {"exc": "connect"}, {"exc": "read_timeout"},
     {"status": 200, "ctype": "sse", "body": "note_only"}, {"status": 202, "ctype": None, "body": "empty", "session": "S9"},
     {"status": 200, "ctype": "other", "body": "nonjson"},
+    # the answer to a notification may itself carry messages (a server piggy-backing a log line or a request of its own)
+    {"status": 202, "ctype": "json", "body": "note_only"}, {"status": 202, "ctype": "sse", "body": "note_only"},
+    {"status": 200, "ctype": "json", "body": "note_only"}, {"status": 202, "ctype": "sse", "body": "server_request_only"},
+    {"status": 202, "ctype": "json", "body": "server_request_only"},
 ]
 
 REQ_IDS = [1, 0, "abc", "123", 2**53 + 1, "u-é", "", -1]
@@ -575,11 +581,15 @@ def exec_case(ctx, seq: List[Dict[str, Any]]) -> None:
             got_n = [g for g in got_n if g[1] == tagged(wires[k].get("id"))]
         with_id = [g for g in got_n if g[1] != ("null",)]
         if step["req"] in ("notification", "response"):
-            ref = reference(step, req_wire) if step["req"] == "notification" else {"alts": []}
+            ref = reference(step, {k_: v_ for k_, v_ in req_wire.items() if k_ != "id"})   # nothing here awaits an answer
             allowed = [norm_any(m) for alt in ref.get("alts", []) for m in alt]
             stray = [g for g in with_id if g not in allowed]
             if stray:
                 ctx.violation("id_message_for_notification", f"notification POST #{k} produced messages carrying an id: {stray!r}", case)
+            if step["req"] == "notification" and ref.get("mode") == "messages" and not any(got_n == [norm_any(m) for m in alt] for alt in ref["alts"]):
+                ctx.violation("server_messages_dropped" if not got_n else "server_message_lost",
+                              f"notification POST #{k} ({step['beh']}): the answer carried {[norm_any(m)[:3] for m in ref['alts'][0]]!r}, "
+                              f"the read stream got {[g[:3] for g in got_n]!r}", case)
             shape.append(f"n{len(got_n)}")
             continue
         rid = req_wire["id"]
